@@ -120,8 +120,8 @@ def run_scenario(sc, rng, workdir, idx):
     names = sorted(g.servers)
     notes = []
 
-    # the storage index of this file (fixed key): from a fault-free upload on a scratch grid
-    si, _ = ud.reference_shares(workdir, data, k, n)
+    # the storage index of this file: the encryption key is fixed (EncryptAnUploadable.get_storage_index)
+    si = hashutil.storage_index_hash(ud.FIXED_KEY)
 
     # ---- phase 0: an earlier upload of the same storage index on a subset of the servers ---------------
     own_holder = g.client._secret_holder
@@ -167,6 +167,12 @@ def run_scenario(sc, rng, workdir, idx):
 
     order = [s.get_nickname() for s in g.broker.get_servers_for_psi(si)]
     pre_disk = {nm: sorted(g.shares(si).get(nm, {})) for nm in names}
+
+    def incoming(nm):
+        inc_dir = os.path.join(g.servers[nm].ss.incomingdir, storage_index_to_dir(si))
+        return sorted(int(f) for f in os.listdir(inc_dir)) if os.path.isdir(inc_dir) else []
+
+    pre_inc = {nm: incoming(nm) for nm in names}       # (left behind by phase 0 if that upload died)
     t_start = int(vr.seconds())
     renewal_secret = own_holder.get_renewal_secret()
     frs = hashutil.file_renewal_secret_hash(renewal_secret, si)
@@ -332,8 +338,6 @@ def run_scenario(sc, rng, workdir, idx):
     for nm in names:
         srv = g.servers[nm]
         final = g.shares(si).get(nm, {})
-        inc_dir = os.path.join(srv.ss.incomingdir, storage_index_to_dir(si))
-        incoming = sorted(int(f) for f in os.listdir(inc_dir)) if os.path.isdir(inc_dir) else []
         ls = leases(nm)
         ueb_ok = []
         if ur is not None:
@@ -345,7 +349,7 @@ def run_scenario(sc, rng, workdir, idx):
                         ueb_ok.append(sh)
                 except Exception:
                     pass
-        disk[nm] = {"final": sorted(final), "incoming": incoming,
+        disk[nm] = {"final": sorted(final), "incoming": incoming(nm),
                     "ours": sorted(sh for sh, l in ls.items() if l["ours"]),
                     "fresh": sorted(sh for sh, l in ls.items() if l["fresh"]),
                     "ueb_ok": sorted(ueb_ok)}
@@ -356,7 +360,7 @@ def run_scenario(sc, rng, workdir, idx):
     advertised_ro = [("s%d" % i) for i, m in enumerate(sc["modes"]) if m in ("readonly", "full_known")]
     consts = {"servers": names, "order": order, "n": n, "k": k, "happy": happy, "size": sc["size"], "maxseg": SEGSIZE,
               "modes": {("s%d" % i): sc["modes"][i] for i in range(ns)}, "advertised_ro": advertised_ro,
-              "pre": pre_disk, "pre_ours": {nm: sorted(sh for sh, l in pre_leases[nm].items() if l["ours"]) for nm in names},
+              "pre": pre_disk, "pre_inc": pre_inc, "pre_ours": {nm: sorted(sh for sh, l in pre_leases[nm].items() if l["ours"]) for nm in names},
               "profile": sc["profile"], "deliver": sc["order"], "timeout": TIMEOUT,
               "pre_n": sc["pre"]["n"] if sc["pre"] else 0, "pre_other": bool(sc["pre"] and sc["pre"]["other_client"]),
               "oneshot": sc["oneshot"], "notes": notes}
